@@ -135,9 +135,10 @@ class Oracle:
             part.violation(f"C03|{op.kind}|value-created|{status}",
                            f"{op.kind} ({status}) raised total net value by more than wallet dust", case,
                            {"delta": float(delta), "dust": float(dust), "label": op.label, "pre_nv": float(pre_nv)})
-        elif out.ok and conserving(op.kind) and not op.meta.get("swap") and not op.meta.get("revalues"):
+        elif conserving(op.kind) and not op.meta.get("swap") and not op.meta.get("revalues"):
+            # accepted OR refused: a conserving operation that is refused half-way and keeps what it had already taken has not conserved either
             if abs(delta) > tol:
-                part.violation(f"C03|{op.kind}|not-conserved", f"{op.kind} does not conserve total net value up to dust", case,
+                part.violation(f"C03|{op.kind}|not-conserved" + ("" if out.ok else "|rejected"), f"{op.kind} ({status}) does not conserve total net value up to dust", case,
                                {"delta": float(delta), "dust": float(dust), "label": op.label})
         elif out.ok and op.meta.get("swap") and not op.meta.get("multi") and op.meta.get("fee_value") is not None:
             fee_v = op.meta["fee_value"](ctx, out.ret, row)
